@@ -22,6 +22,13 @@ CHECKS["C02"] = dict(
     note="Reference evaluator cexpr.py (0 disagreements with gcc on every enumerated case); undefined / implementation-defined cases excluded; one recorded finding (unsuffixed hex >= 2^63, pinned by the repo's own test).",
 )
 
+CHECKS["C01"] = dict(
+    cat="model_checking", ref="DESIGN.md §3 C01",
+    technique="explicit-state BFS over (reference conditional stack + macro table) x (implementation tree insertion chain + platform macro table), one transition = one more source line re-parsed and re-associated by the real code; plus bounded-exhaustive enumeration of all well-formed programs up to a directive bound x 10 -D configurations, every pair judged by gcc -E in batch",
+    text="Every well-formed conditional program with <=5 (quick) / <=6 (thorough) directives over the condition/define alphabet is analysed by the real finder.find for 10 configurations and compared per physical line with the reference machine; the BFS reaches deeper nesting/history combinations with state deduplication and a congruence check.",
+    note="Reference machine ref/cond.py agrees with gcc -E on every judged (program, configuration); pairs gcc diagnoses are excluded; only .lines membership is compared.",
+)
+
 PENDING = {}
 
 
